@@ -14,6 +14,7 @@ import KrillModel.ES.WalLemmas
 import KrillModel.ES.Reg
 import KrillModel.ES.RegLemmas
 import KrillModel.ES.Bag
+import KrillModel.ES.Instances
 /-
 Clause → theorem (text of C06 in /verif/properties.jsonl):
 * "replaying the stored initialisation and commands from scratch, … any stored snapshot plus the
@@ -24,7 +25,15 @@ Clause → theorem (text of C06 in /verif/properties.jsonl):
 * "snapshots taken at every point of that history": `snapshot_any_point`,
   `stored_snapshot_is_prefix_state`.
 * "Replaying a stored history never fails or panics": `replay_total`; the live path:
-  `no_panic_of_applicable` (+ `reg_applicable`, `badAgg`).
+  `no_panic_of_applicable` (+ `reg_applicable`, `badAgg`), and its veto-aware form
+  `no_panic_of_applicable_veto` / `store_never_panics` (hypothesis only for the states reachable when
+  commands the pre-save listener refuses are not stored; `veto_hypothesis_strictly_weaker`).
+* "For every event-sourced entity (CAs, trust-anchor proxy and signer, repository access, …)": the
+  hypothesis discharged for the models of the real aggregates (`ES/Instances.lean`):
+  `ca_replay_never_panics`, `ca_replay_never_panics_krill_usage`, `ca_replay_eq_live`,
+  `ca_replay_eq_live_obs`, `taproxy_replay_never_panics`, `taproxy_replay_eq_live`,
+  `tasigner_replay_never_panics`, `tasigner_replay_eq_live`; repository access (no model with
+  `process`/`apply`; its `apply` has no panic arm): `total_apply_never_panics`.
 * "repository content log" (WAL store): `wal_replay_eq_live`, `wal_replay_eq_live_krill_usage`
   (decidable `safeRunB`), `wal_live_is_snapshot_plus_sets`, `wal_snapshot_safe_iff` (the side
   condition is exact), `wal_snapshot_needs_current_caches`.
@@ -164,6 +173,71 @@ theorem no_panic_of_applicable (hiv : A.initVersion ≤ 1) (hA : ProcessApplicab
   rw [(step_refines hiv hI op).1]
   exact specStep_no_panic hA hR op
 
+/-- **no_panic_of_applicable_veto.**  The same under the weaker, veto-aware hypothesis: `process`
+need only emit applicable events in the states reachable when a command the pre-save listener
+refuses is *not stored* (`ReachableV`) – which is what `execute_opt_command` does (store.rs:458-474,
+`phDecide`).  The listener is the component `preSave` of the aggregate, so the histories need no side
+condition: a vetoed command is an ordinary `Op.cmd` whose outcome is `Out.err`. -/
+theorem no_panic_of_applicable_veto (hiv : A.initVersion ≤ 1) (hA : ProcessApplicableV A)
+    (ops : List (Op A)) (op : Op A) :
+    (step (run (Ent.empty : Ent A) ops) op).2 ≠ some .panic := by
+  have hI : Inv (run (Ent.empty : Ent A) ops) (specRun [] ops) := run_refines hiv inv_empty ops
+  have hR := reachableV_final hiv ops
+  rw [(step_refines hiv hI op).1]
+  exact specStep_no_panic_veto hA hR op
+
+/-- The old statement is the special case (the hypothesis without veto is the stronger one). -/
+theorem no_panic_of_applicable_from_veto (hiv : A.initVersion ≤ 1) (hA : ProcessApplicable A)
+    (ops : List (Op A)) (op : Op A) :
+    (step (run (Ent.empty : Ent A) ops) op).2 ≠ some .panic :=
+  no_panic_of_applicable_veto hiv hA.toV ops op
+
+/-- … also with deletion and re-creation of the entity, under krill's usage assumption. -/
+theorem no_panic_of_applicable_veto_krill_usage (hiv : A.initVersion ≤ 1)
+    (hA : ProcessApplicableV A) (ops : List (HOp A))
+    (hu : dropSafeB (Ent.empty : Ent A) ops = true) (op : Op A) :
+    (step (runH (Ent.empty : Ent A) ops) op).2 ≠ some .panic := by
+  have hI : Inv (runH (Ent.empty : Ent A) ops) (specRunH [] ops) :=
+    runH_refines hiv inv_empty ops (dropSafe_of_B hu)
+  have hR := reachableV_finalH hiv ops
+  rw [(step_refines hiv hI op).1]
+  exact specStep_no_panic_veto hA hR op
+
+/-- **store_never_panics.**  For an aggregate that meets the veto-aware hypothesis: after any
+history of public operations – creation, commands that are accepted, refused by `process_command`,
+no-ops, vetoed by the pre-save listener, failed writes, reads, snapshots at any point, cache drops,
+through any number of store objects – the next operation, whatever it is, does not panic (so,
+taking prefixes, no operation of the history did), and replaying what is stored – from
+`command-0.json` alone, or from the snapshot plus the later commands – neither panics nor hits the
+"command key exists" exit. -/
+theorem store_never_panics (hiv : A.initVersion ≤ 1) (hA : ProcessApplicableV A)
+    (ops : List (Op A)) (op : Op A) :
+    let e := run (Ent.empty : Ent A) ops
+    (step e op).2 ≠ some .panic ∧
+    loadScratch e ≠ .panic ∧ loadFresh e ≠ .panic ∧ loadScratch e ≠ .fatal ∧ loadFresh e ≠ .fatal :=
+  ⟨no_panic_of_applicable_veto hiv hA ops op, replay_total hiv ops⟩
+
+/-- The same for histories that also delete and re-create the entity (usage predicate `dropSafeB`). -/
+theorem store_never_panics_krill_usage (hiv : A.initVersion ≤ 1) (hA : ProcessApplicableV A)
+    (ops : List (HOp A)) (hu : dropSafeB (Ent.empty : Ent A) ops = true) (op : Op A) :
+    let e := runH (Ent.empty : Ent A) ops
+    (step e op).2 ≠ some .panic ∧
+    loadScratch e ≠ .panic ∧ loadFresh e ≠ .panic ∧ loadScratch e ≠ .fatal ∧ loadFresh e ≠ .fatal := by
+  intro e
+  refine ⟨no_panic_of_applicable_veto_krill_usage hiv hA ops hu op, ?_⟩
+  obtain ⟨h1, h2, _⟩ := replay_eq_live_krill_usage hiv ops hu 0
+  simp only [e, h1, h2, expected]
+  cases finalOf (specRunH ([] : Log A) ops) <;> simp
+
+/-- An aggregate whose `apply` has no panic arm (e.g. `RepositoryAccess`, access.rs:333-342: two
+`HashMap` updates): nothing to assume. -/
+theorem total_apply_never_panics (hiv : A.initVersion ≤ 1)
+    (htot : ∀ s e, (A.apply s e).isSome = true) (ops : List (Op A)) (op : Op A) :
+    let e := run (Ent.empty : Ent A) ops
+    (step e op).2 ≠ some .panic ∧
+    loadScratch e ≠ .panic ∧ loadFresh e ≠ .panic ∧ loadScratch e ≠ .fatal ∧ loadFresh e ≠ .fatal :=
+  store_never_panics hiv (processApplicable_of_total htot).toV ops op
+
 /-! ### non-vacuity -/
 
 /-- The register aggregate meets the hypothesis `initVersion ≤ 1` for both of krill's
@@ -248,6 +322,223 @@ example :
     (match (command e 0 ⟨"u", ()⟩).2 with | .panic => true | _ => false) = true ∧
     (match loadScratch (command e 0 ⟨"u", ()⟩).1 with | .ok v => v.version | _ => 0) = 1 := by
   decide
+
+/-- The veto-aware hypothesis is strictly weaker: in `vetoAgg` the listener refuses everything, so
+the only state the store ever holds is the initial one, where `process` emits an applicable event;
+without regard to the veto the state 1 would be "reachable", and there `apply` panics. -/
+@[reducible] def vetoAgg : Agg where
+  State := Nat
+  Cmd := Unit
+  Ev := Unit
+  InitCmd := Unit
+  InitEv := Unit
+  Err := Unit
+  initVersion := 1
+  init := fun _ => 0
+  processInit := fun _ => .ok ()
+  process := fun _ _ => .ok [()]
+  apply := fun s _ => if s = 0 then some 1 else none
+  preSave := fun _ _ => some ()
+
+theorem veto_hypothesis_strictly_weaker :
+    ProcessApplicableV vetoAgg ∧ ¬ ProcessApplicable vetoAgg := by
+  have hz : ∀ s, ReachableV vetoAgg s → s = 0 := by
+    intro s h
+    induction h with
+    | init ic ev _ => rfl
+    | step s s' c evs _ _ _ hps _ => cases hps
+  constructor
+  · intro s c evs hr hp
+    have := hz s hr
+    subst this
+    have : evs = [()] := by
+      have h' : (Except.ok [()] : Except Unit (List Unit)) = .ok evs := hp
+      cases h'; rfl
+    subst this
+    rfl
+  · intro h
+    have h0 : Reachable vetoAgg (0 : Nat) := Reachable.init (A := vetoAgg) () () rfl
+    have h1 : Reachable vetoAgg (1 : Nat) :=
+      Reachable.step (A := vetoAgg) (0 : Nat) (1 : Nat) () [()] h0 rfl rfl
+    have := h (1 : Nat) () [()] h1 rfl
+    cases this
+
+/-- … and on `vetoAgg` the theorem has content: the command is vetoed (`Out.err`), never panics,
+and nothing is stored. -/
+example :
+    let e := run (Ent.empty : Ent vetoAgg) [.add 0 "u" () false, .cmd 0 ⟨"u", ()⟩ false]
+    (match (command e 0 ⟨"u", ()⟩).2 with | .err () => true | _ => false) = true ∧
+    (match loadScratch e with | .ok v => some (v.version, v.st) | _ => none) = some (1, 0) := by
+  decide
+
+/-! ## The real aggregates (`ES/Instances.lean`) -/
+
+section Instances
+open KM.ES.Inst
+
+/-- **ca_replay_never_panics.**  `CertAuth` (model `Ca/CertAuth.lean`) behind the store, with its
+pre-save listener (`CaObjectsStore`, model `Ca/ObjKeys.lean`; a batch it refuses makes the command
+fail and nothing is stored) and any further pre-save failure `env` (task queue): no operation of
+any store history panics – commands accepted, refused, vetoed by the listener, failed writes, reads,
+snapshots, cache drops, several store objects – and replay from the stored commands alone (or from
+the snapshot) is total.  No hypothesis is left: `caAgg_applicable` obtains it from C04's
+`process_emits_applicable` through the simulation `caAgg_sim` (every state the store can hold is a
+`CaK.Reachable` state). -/
+theorem ca_replay_never_panics (env : CaSt → List CaK.Ev → Option Nat)
+    (ops : List (Op (caAgg env))) (op : Op (caAgg env)) :
+    let e := run (Ent.empty : Ent (caAgg env)) ops
+    (step e op).2 ≠ some .panic ∧
+    loadScratch e ≠ .panic ∧ loadFresh e ≠ .panic ∧ loadScratch e ≠ .fatal ∧ loadFresh e ≠ .fatal :=
+  store_never_panics (Nat.le_refl 1) (caAgg_applicable env) ops op
+
+/-- … also when CAs are deleted and re-created (`drop_aggregate`), under the usage predicate. -/
+theorem ca_replay_never_panics_krill_usage (env : CaSt → List CaK.Ev → Option Nat)
+    (ops : List (HOp (caAgg env))) (hu : dropSafeB (Ent.empty : Ent (caAgg env)) ops = true)
+    (op : Op (caAgg env)) :
+    let e := runH (Ent.empty : Ent (caAgg env)) ops
+    (step e op).2 ≠ some .panic ∧
+    loadScratch e ≠ .panic ∧ loadFresh e ≠ .panic ∧ loadScratch e ≠ .fatal ∧ loadFresh e ≠ .fatal :=
+  store_never_panics_krill_usage (Nat.le_refl 1) (caAgg_applicable env) ops hu op
+
+/-- **ca_replay_eq_live.**  `replay_eq_live` for `CertAuth`: replay from scratch, snapshot plus
+later commands and every live store object return the same CA (and the same answer of the
+listener), the pure replay of the audit log. -/
+theorem ca_replay_eq_live (env : CaSt → List CaK.Ev → Option Nat) (ops : List (Op (caAgg env)))
+    (i : Nat) :
+    let e := run (Ent.empty : Ent (caAgg env)) ops
+    loadScratch e = expected (specRun [] ops) ∧
+    loadFresh e = expected (specRun [] ops) ∧
+    (getLatest e i).2 = expected (specRun [] ops) :=
+  replay_eq_live (Nat.le_refl 1) ops i
+
+/-- … for every renderer of results ("in every respect observable through the API"). -/
+theorem ca_replay_eq_live_obs (env : CaSt → List CaK.Ev → Option Nat)
+    (ops : List (Op (caAgg env))) (R : Obs.Render (caAgg env)) :
+    let e := run (Ent.empty : Ent (caAgg env)) ops
+    Obs.allAgree [Obs.oRet R (getLatest e 0).2, Obs.oRet R (getLatest e 1).2,
+      Obs.oRet R (getLatest e 2).2, Obs.oRet R (loadFresh e), Obs.oRet R (loadScratch e)] = true :=
+  replay_eq_live_obs (Nat.le_refl 1) ops R
+
+/-- Non-vacuity (`caHistory`): a complete key roll through three store objects with a snapshot in
+the middle, a failed write, a cache drop and a refused command.  All ways of loading agree on
+version 12, class 0 `active` again (under the new key), two classes; the snapshot is the one taken
+at version 8, in the middle of the roll. -/
+example :
+    let e := run (Ent.empty : Ent (caAgg noEnv)) caHistory
+    caView (loadScratch e) = some (12, some .active, 2) ∧
+    caView (loadFresh e) = some (12, some .active, 2) ∧
+    caView (getLatest e 1).2 = some (12, some .active, 2) ∧
+    e.kv.snapshot.map (·.version) = some 8 ∧
+    (e.kv.snapshot.bind fun v => (AMap.get (CaSt.ca v.st).classes 0).map (·.keys.variant))
+      = some .rollPending := by
+  decide +kernel
+
+/-- Non-vacuity, the veto: operation 9 of `caHistory` (a revocation request naming the class that
+is still pending) passes `process_command` and `apply`, the listener refuses it ("missing resource
+class"), the store answers with that error and stores nothing – the log is as long as before. -/
+example :
+    let e := run (Ent.empty : Ent (caAgg noEnv)) (caHistory.take 9)
+    (match (step e (.cmd 0 ⟨"c", .childRevokeKey 7 1 6⟩ false)).2 with
+      | some (.err (.listener .missingClass)) => true | _ => false) = true ∧
+    (step e (.cmd 0 ⟨"c", .childRevokeKey 7 1 6⟩ false)).1.kv.cmds.length = e.kv.cmds.length ∧
+    caView (getLatest e 0).2 = some (8, some .rollPending, 2) ∧
+    (specRun [] caHistory).length = 12 := by
+  decide +kernel
+
+/-- Non-vacuity, `env`: a task-queue failure on every key-roll activation makes that command fail
+without panic; the CA stays in `rollNew`. -/
+example :
+    let env : CaSt → List CaK.Ev → Option Nat :=
+      fun _ evs => if evs.any (fun e => match e with | .key _ .activated => true | _ => false)
+        then some 5 else none
+    let ops : List (Op (caAgg env)) :=
+      [ .add 0 "admin" none false,
+        .cmd 0 ⟨"u", .repoUpdate []⟩ false, .cmd 0 ⟨"u", .addParent 9⟩ false,
+        .cmd 0 ⟨"u", .updateEntitlements 9 [⟨0, [1, 2], 100, []⟩] 0 [4]⟩ false,
+        .cmd 0 ⟨"u", .updateRcvdCert 0 4 { res := [1, 2], na := 100 } 50 []⟩ false,
+        .cmd 0 ⟨"u", .keyrollInit [(0, 8)]⟩ false,
+        .cmd 0 ⟨"u", .updateRcvdCert 0 8 { res := [1, 2], na := 100 } 62 []⟩ false ]
+    let e := run (Ent.empty : Ent (caAgg env)) ops
+    (match (step e (.cmd 0 ⟨"u", .keyrollActivate 70⟩ false)).2 with
+      | some (.err (.env 5)) => true | _ => false) = true ∧
+    (match loadFresh (step e (.cmd 0 ⟨"u", .keyrollActivate 70⟩ false)).1 with
+      | .ok v => (AMap.get (CaSt.ca v.st).classes 0).map (·.keys.variant) | _ => none)
+      = some .rollNew := by
+  decide
+
+/-- **taproxy_replay_never_panics.**  `TrustAnchorProxy` (model `Ta/Proxy.lean`, with the three
+`unwrap()`s of its `apply` as panics: `Inst.applyP`) behind the store, for every behaviour `env` of
+its pre-save listener (the task queue): no operation of any store history panics and replay is
+total.  Here `process_command` emits applicable events in *every* state
+(`ta_process_applicable`), no invariant is needed. -/
+theorem taproxy_replay_never_panics (env : Ta.Proxy → List Ta.Ev → Option Nat)
+    (ops : List (Op (taProxyAgg env))) (op : Op (taProxyAgg env)) :
+    let e := run (Ent.empty : Ent (taProxyAgg env)) ops
+    (step e op).2 ≠ some .panic ∧
+    loadScratch e ≠ .panic ∧ loadFresh e ≠ .panic ∧ loadScratch e ≠ .fatal ∧ loadFresh e ≠ .fatal :=
+  store_never_panics (Nat.le_refl 1) (taProxyAgg_applicable env).toV ops op
+
+theorem taproxy_replay_eq_live (env : Ta.Proxy → List Ta.Ev → Option Nat)
+    (ops : List (Op (taProxyAgg env))) (i : Nat) :
+    let e := run (Ent.empty : Ent (taProxyAgg env)) ops
+    loadScratch e = expected (specRun [] ops) ∧
+    loadFresh e = expected (specRun [] ops) ∧
+    (getLatest e i).2 = expected (specRun [] ops) :=
+  replay_eq_live (Nat.le_refl 1) ops i
+
+/-- The `unwrap()`s are real panic arms of the model (`applyP` is partial) – the theorem is not
+about a total function: a `ChildRequestAdded` for an unknown child, a response without a signer. -/
+example :
+    applyP (Ta.Proxy.init 1) (.childRequestAdded "c" ⟨.issue, 5, 0, [], true, 0⟩) = none ∧
+    applyP (Ta.Proxy.init 1) (.signerResponseReceived ⟨3, ⟨1, [], []⟩, []⟩) = none ∧
+    (applyP (Ta.Proxy.init 1) (.childAdded "c" [1])).isSome = true := by
+  decide
+
+/-- Non-vacuity: signer added, child "c" added, adding child "d" vetoed by the listener (`env`:
+nothing stored), a child request, a snapshot by a second store object, a signer request made, a
+refused command (second signer request, stored as a failed command), a cache drop. -/
+example :
+    let env : Ta.Proxy → List Ta.Ev → Option Nat :=
+      fun _ evs => if evs.any (fun e => match e with | .childAdded "d" _ => true | _ => false)
+        then some 1 else none
+    let ops : List (Op (taProxyAgg env)) :=
+      [ .add 0 "ta" (.ok 1) false,
+        .cmd 0 ⟨"u", .addSigner ⟨2, 3, ⟨1, [], []⟩⟩⟩ false,
+        .cmd 0 ⟨"u", .addChild "c" [1, 2]⟩ false,
+        .cmd 0 ⟨"u", .addChild "d" [1]⟩ false,
+        .cmd 0 ⟨"u", .addChildRequest "c" ⟨.issue, 5, 0, [1], true, 0⟩⟩ false,
+        .snap 1 false,
+        .cmd 0 ⟨"u", .makeSignerRequest 77⟩ false,
+        .cmd 1 ⟨"u", .makeSignerRequest 78⟩ false,
+        .restart 0 ]
+    let e := run (Ent.empty : Ent (taProxyAgg env)) ops
+    let view : Out (taProxyAgg env) → Option (Nat × Option Ta.Nonce × Nat × Nat) := fun o =>
+      match o with
+      | .ok v => some (v.version, Ta.Proxy.openNonce v.st, (Ta.Proxy.openReq v.st).length,
+                       (Ta.Proxy.children v.st).length)
+      | _ => none
+    view (loadScratch e) = some (6, some 77, 1, 1) ∧
+    view (loadFresh e) = some (6, some 77, 1, 1) ∧
+    view (getLatest e 0).2 = some (6, some 77, 1, 1) := by
+  decide
+
+/-- **tasigner_replay_never_panics.**  `TrustAnchorSigner` (model `Ta/Signer.lean`, split into
+`process` and the total `apply` by `Inst.signerProcess` / `Inst.signerApply`,
+`signer_apply_process`). -/
+theorem tasigner_replay_never_panics (ops : List (Op taSignerAgg)) (op : Op taSignerAgg) :
+    let e := run (Ent.empty : Ent taSignerAgg) ops
+    (step e op).2 ≠ some .panic ∧
+    loadScratch e ≠ .panic ∧ loadFresh e ≠ .panic ∧ loadScratch e ≠ .fatal ∧ loadFresh e ≠ .fatal :=
+  store_never_panics (Nat.le_refl 1) taSignerAgg_applicable.toV ops op
+
+theorem tasigner_replay_eq_live (ops : List (Op taSignerAgg)) (i : Nat) :
+    let e := run (Ent.empty : Ent taSignerAgg) ops
+    loadScratch e = expected (specRun [] ops) ∧
+    loadFresh e = expected (specRun [] ops) ∧
+    (getLatest e i).2 = expected (specRun [] ops) :=
+  replay_eq_live (Nat.le_refl 1) ops i
+
+end Instances
 
 /-! ## The write-ahead-log store -/
 
